@@ -126,7 +126,9 @@ def modelWire (m : M) : String :=
     join "," [encText k, encText c.address, pyWire c.value,
       (match c.formula with | some f => encText f.formula ++ ":" ++ encText f.sheetName | none => "-"),
       (if c.definedNames.isEmpty then "-" else join "~" (c.definedNames.map encText))]
-  let formulae := m.formulae.map fun (k, f) => join "," [encText k, encText f.formula, encText f.sheetName]
+  let formulae := m.formulae.map fun (k, f) =>
+    join "," [encText k, encText f.formula, encText f.sheetName,
+      (let ts := rangeTerms f; if ts.isEmpty then "-" else join "~" (ts.map encText))]
   let names := m.names.map fun (k, d) =>
     match d with
     | .cell a => join "," [encText k, "C", encText a]
